@@ -380,28 +380,46 @@ def atom_using(ch, env, var, T, depth):
     return binop('>', ('call', 'abs', v), other)
 
 
-def quantifier(ch, env, depth):
+def quantifier(ch, env, depth, dom_using=None):
+    """dom_using: None or (name, T) of an enclosing quantifier's variable that the domain of this one is built on."""
     var = _fresh_qvar(ch, env)
     shadow = None
-    if env.aliases and not env.chaos and ch.int(0, 9) == 0:
+    if (env.aliases or env.reserved) and not env.chaos and dom_using is None and ch.int(0, 9) == 0:
         # the quantifier binds the name of an alias that is visible here: inside (and in the domain, which must not
-        # mention the variable at all) the alias is out of reach; outside the name keeps meaning the earlier message
-        cands = sorted(a for a in env.aliases if a not in env.qvars)
+        # mention the variable at all) the alias is out of reach; outside the name keeps meaning the earlier message.
+        # Or the name of an alias bound somewhere else in the property that is not visible here (an alternative of a
+        # disjunction, the terminator, another scope): just a name.
+        cands = sorted(a for a in set(env.aliases) | set(env.reserved) if isinstance(a, str) and a in ALIASES and a not in env.qvars and ('dom', a) not in env.reserved)
         if cands:
             shadow = var = ch.pick(cands)
     if var is None:
         return None
-    T = ch.pick(['N', 'N', 'B', 'S'])
+    T = ch.pick(['N', 'N', 'B', 'S']) if dom_using is None else dom_using[1]
     if not env.allow_f12:
-        T = env.qtypes.setdefault(var, T)
+        T0 = env.qtypes.setdefault(var, T)
+        if dom_using is not None and T0 != T:
+            return None
+        T = T0
     if shadow is not None:
         visible = {a: sc for a, sc in env.aliases.items() if a != shadow}
         env = Env(env.this, visible, env.qvars, env.chaos, env.reserved | {shadow}, env.qtypes, env.allow_f12)
     # the domain must not mention the variable, not even bound by a quantifier of its own
-    outer = env.derive(reserved=env.reserved | {var})
+    outer = env.derive(reserved=env.reserved | {var, ('dom', var)})
     dom = compound(ch, outer, T, max(depth - 1, 0))
+    if dom_using is not None:
+        # the domain depends on the enclosing quantifier's variable: `forall i in xs: forall j in [0 to @i]: ...`
+        ov = ('var', dom_using[0])
+        if T == 'N' and ch.bool():
+            dom = ('range', _lit(ch, 'N'), ov, ch.bool(), ch.bool()) if ch.bool() else ('range', ov, _lit(ch, 'N'), ch.bool(), ch.bool())
+        else:
+            dom = ('set', (ov, _lit(ch, T)) if ch.bool() else (_lit(ch, T), ov))
     inner = env.with_qvar(var, T)
     core = atom_using(ch, inner, var, T, max(depth - 1, 0))
+    if depth >= 2 and not env.chaos and ch.int(0, 5) == 0:
+        # the body is directly another quantifier, over a domain built on this one's variable
+        nested = quantifier(ch, inner, depth - 1, dom_using=(var, T))
+        if nested is not None:
+            return ('q', ch.pick(['forall', 'forall', 'exists']), var, dom, nested)
     k = ch.int(0, 5)
     if k <= 2 or depth <= 1:
         body = core
@@ -611,8 +629,12 @@ def simple_event(ch, pc, topic, visible, depth, alias=None, pred_prob=3):
     return ('ev', topic, alias, pred)
 
 
-def any_event(ch, pc, topics, visible, depth, width=None, alias_prob=2, taken=()):
-    """A simple event or a disjunction over distinct topics. Returns (event, aliases bound by all alternatives)."""
+def any_event(ch, pc, topics, visible, depth, width=None, alias_prob=2, taken=(), reusable=()):
+    """A simple event or a disjunction over distinct topics. Returns (event, aliases bound by all alternatives).
+
+    reusable: alias names bound elsewhere in the property that this event may bind again (the terminator may reuse the
+    names of the pattern's events: it is only compared with the activator's). Their entry in pc.alias_schema stays the
+    earlier one, which is the binding every external reference to the name means."""
     if width is None:
         width = ch.pick([1, 1, 1, 2, 2, 3, 4])
     width = min(width, len(topics))
@@ -620,9 +642,14 @@ def any_event(ch, pc, topics, visible, depth, width=None, alias_prob=2, taken=()
     evs = []
     bound = []
     free_aliases = [a for a in ALIASES if a not in pc.all_aliases and a not in taken]
+    again = sorted(a for a in reusable if a not in taken)
     for t in chosen:
         alias = None
-        if free_aliases and ch.int(0, alias_prob) == 0:
+        if again and ch.int(0, 1) == 0:
+            alias = ch.pick(again)
+            again.remove(alias)
+            bound.append(alias)
+        elif free_aliases and ch.int(0, alias_prob) == 0:
             alias = ch.pick(free_aliases)
             free_aliases.remove(alias)
             pc.all_aliases.add(alias)
@@ -675,7 +702,10 @@ def properties(ch, depth=3, chaos=0, wild_time=False, max_width=4, meta=True, sc
         trig, t_al = any_event(ch, pc, topics, act_aliases, depth, width=width('trigger'))
         beh, _ = any_event(ch, pc, topics, act_aliases + t_al, depth, width=width('behaviour'))
     if sk in ('until', 'after_until'):
-        term, _ = any_event(ch, pc, topics, act_aliases, depth, width=width('terminator'))
+        # every name bound in the activator (also by one alternative only) is closed to the terminator
+        in_act = {e[2] for e in mast.simple_events(act)}
+        again = sorted(pc.all_aliases - in_act) if ch.int(0, 2) == 0 else ()
+        term, _ = any_event(ch, pc, topics, act_aliases, depth, width=width('terminator'), reusable=again)
     bound = time_bounds(ch, wild=wild_time)
     md = ()
     if meta:
